@@ -3,7 +3,8 @@
    back-end both equal the specification polynomial [u]; the rows the block runs hold exactly
    these values; the direct back-end refuses orders above two. *)
 From Coq Require Import List Arith Lia Bool Field.
-From GB Require Import Base.Field Base.FNum Base.Tables Model.Shell Model.Eval.
+From GB Require Import Base.Field Base.FNum Base.Tables Model.Shell Model.MomentInt Model.Overlap
+  Model.Eval.
 Import ListNotations.
 
 Section P.
@@ -473,3 +474,37 @@ Lemma flags_hyp_example :
 Proof.
   split; [discriminate|]. split; [vm_compute; tauto|]. split; vm_compute; lia.
 Qed.
+
+(* ---------------- normalisation shortcut ---------------- *)
+Section NormDiag.
+Context {F : Type} (K : Fops F).
+
+Lemma nth_map_in {A B} (f : A -> B) (l : list A) (d : A) (e : B) n :
+  n < length l -> nth n (map f l) e = f (nth n l d).
+Proof.
+  intros Hn. rewrite (nth_indep _ e (f d)) by (now rewrite map_length). apply map_nth.
+Qed.
+
+(* the diagonal-only normalisation is the one of Model/Overlap.v *)
+Lemma norm_cont_diag_eq (s : shell F) : norm_cont_diag K s = norm_cont K s.
+Proof.
+  unfold norm_cont_diag, norm_cont.
+  apply mk_ext. intros m Hm. apply mk_ext. intros c Hc.
+  f_equal. f_equal.
+  unfold overlap_block, mm_block. cbn [map hd].
+  set (cas := combine (comps_of s) (norms K s)).
+  assert (Hlen : length cas = length (comps_of s)).
+  { unfold cas. rewrite combine_length. unfold norms. rewrite map_length. lia. }
+  unfold nth4.
+  rewrite (nth_mk (nseg s) _ [] m) by exact Hm.
+  rewrite (nth_mk (length cas) _ [] c) by lia.
+  rewrite (nth_mk (nseg s) _ [] m) by exact Hm.
+  rewrite (nth_mk (length cas) _ (f0 K) c) by lia.
+  pose (d0 := ((0, 0, 0)%nat, @nil F) : comp * list F).
+  rewrite (nth_map_in _ cas d0 [] c) by lia.
+  rewrite (nth_map_in _ cas d0 [] c) by lia.
+  destruct (nth c cas d0) as [ca na] eqn:E.
+  rewrite (nth_map_in _ cas d0 [] c) by lia.
+  rewrite E. reflexivity.
+Qed.
+End NormDiag.
